@@ -1,8 +1,10 @@
 package props
 
 import (
+	"encoding/json"
 	"errors"
 	"fmt"
+	"strings"
 	"sync/atomic"
 	"testing"
 
@@ -118,6 +120,29 @@ func isUnmappedResult(v uint32, err error) error {
 	return nil
 }
 
+// mapSeqCase: the judged call is made right after another one (the answer must not depend on it).
+type mapSeqCase struct {
+	Prev mapCase `json:"prev"`
+	Then mapCase `json:"then"`
+}
+
+func c05SeqCheck(sc mapSeqCase) error {
+	m, err := mapperByName(sc.Then.Mapper)
+	if err != nil {
+		return err
+	}
+	var y uint32
+	if sc.Prev.Dir == "pak" {
+		y, _ = m.p2b(sc.Prev.Addr)
+	} else {
+		y, _ = m.b2p(sc.Prev.Addr)
+	}
+	if err := c05CheckM(m, sc.Then); err != nil {
+		return fmt.Errorf("right after the translation of %s address $%06X (= $%06X): %v", sc.Prev.Dir, sc.Prev.Addr, y, err)
+	}
+	return nil
+}
+
 func c05Check(c mapCase) error {
 	m, err := mapperByName(c.Mapper)
 	if err != nil {
@@ -218,6 +243,14 @@ func c05CheckM(m mapperT, c mapCase) error {
 
 func init() {
 	rig.RegisterReplay("C05", func(data []byte) error {
+		var rf rig.ReplayFile
+		if err := json.Unmarshal(data, &rf); err == nil && strings.HasSuffix(rf.Kind, "-mixed") {
+			var sc mapSeqCase
+			if err := json.Unmarshal(rf.Case, &sc); err != nil {
+				return err
+			}
+			return c05SeqCheck(sc)
+		}
 		c, err := decodeMapCase(data)
 		if err != nil {
 			return err
@@ -290,6 +323,40 @@ func TestC05(t *testing.T) {
 					ev.ClassN(m.name+"/"+dir+"/hole-edges", nontriv-mappedN)
 				}
 				ev.Sample(mapCase{m.name, "bus", 0x3F1FFF})
+				// the functions are stateless: an answer may not depend on the calls made before it.  One goroutine walks both
+				// address spaces with a coarse stride, ascending and descending, and follows every successful translation
+				// by a call of the opposite direction into the same 8 KiB page (where a remembered page pair would be reused)
+				var mixed int64
+				walk := func(x uint32) bool {
+					for _, dir := range []string{"pak", "bus"} {
+						f, back := m.p2b, "bus"
+						if dir == "bus" {
+							f, back = m.b2p, "pak"
+						}
+						y, e := f(x)
+						if e != nil {
+							continue
+						}
+						for _, c := range []mapCase{{m.name, back, y ^ 1}, {m.name, back, y&^0x1FFF | (x+0x20)&0x1FFF}, {m.name, dir, x ^ 2}} {
+							mixed++
+							sc := mapSeqCase{Prev: mapCase{m.name, dir, x}, Then: c}
+							if err := c05SeqCheck(sc); err != nil {
+								r.Violation(m.name+"-mixed", sc, err)
+								return false
+							}
+						}
+					}
+					return true
+				}
+				ok := true
+				for x := uint32(0); x < 1<<24 && ok; x += 0x3FB {
+					ok = walk(x)
+				}
+				for x := uint32(1<<24 - 1); x >= 0x3FB && ok; x -= 0x3FB {
+					ok = walk(x)
+				}
+				ev.Bulk(mixed, mixed)
+				ev.ClassN(m.name+"/calls-right-after-a-call-of-the-opposite-direction-into-the-same-page", mixed)
 			}
 			r.Rapid("rapid", rig.Pick(20000, 200000), func(t *rapid.T) {
 				c := mapCase{rapid.SampledFrom([]string{"lorom", "hirom", "exhirom", "sa1rom"}).Draw(t, "mapper"),
